@@ -61,10 +61,54 @@ def grad_check(init, h, seed, impl, model_names):
     return None
 
 
+def single_terminal_check(init, h, seed, names):
+    """terminal (b): every live tensor alone as L, on a fresh replay; None-vs-array decided structurally (liberal dataflow)"""
+    for Ln in names:
+        r = explore.Run(init, h, seed, oracle=None)
+        if r.failure is not None:
+            r.close()
+            return None
+        impl = r.impl
+        try:
+            impl.t[Ln].backward()
+        except Exception as e:
+            eb = base.exc_brief(e)
+            del e
+            r.close()
+            return ("exception", Ln, "%s.backward() raised %s: %s" % ((Ln,) + eb))
+        m0, exp = csad.expected_grads(init, h, seed, terminal=lambda m: m.a[Ln].sum())
+        for n in impl.order:
+            g = impl.t[n].grad
+            e = exp[n]
+            if m0.const[n] or not m0.reaches(n, Ln):
+                if g is not None and np.any(g != 0):
+                    r.close()
+                    return ("grad_on_independent", n, "L=%s does not depend on %s, yet %s.grad = %s" % (Ln, n, n, explore.fmt(g)))
+                continue
+            if np.any(e != 0):
+                if g is None or not csad.close(g, e):
+                    r.close()
+                    return ("grad_value", n, "L=%s: %s.grad %s expected %s" % (Ln, n, None if g is None else explore.fmt(g), explore.fmt(e)))
+            elif g is not None and np.any(g != 0):
+                r.close()
+                return ("grad_value", n, "L=%s: %s.grad %s expected zeros/None" % (Ln, n, explore.fmt(g)))
+        r.close()
+    return None
+
+
+SINGLE_UPTO = {"quick": 2, "thorough": 3}
+TIER = ["quick"]
+
+
 def on_state(h, r, acc, seed_init):
     init, seed = seed_init
     f = grad_check(init, h, seed, r.impl, r.model.order)
     acc.inc("backward_passes")
+    if f is None and len(h) <= SINGLE_UPTO[TIER[0]]:
+        f = single_terminal_check(init, h, seed, list(r.model.order))
+        acc.inc("single_terminal_checks", len(r.model.order))
+        if f is not None:
+            f = f[:2] + ("[single terminal] " + f[2],)
     if f is not None:
         acc.violation({"case": {"init": init, "history": h, "seed": seed}, "failure": (len(h), ("backward",), ) + f})
         acc.outcome("fail:" + f[0])
@@ -88,6 +132,7 @@ def run_task(task):
 
 
 def plan(tier, seed):
+    TIER[0] = tier
     tasks = []
     for wname, depth in BOUNDS[tier]:
         init, cfg = WORLDS[wname]
@@ -114,7 +159,10 @@ def _fails(init, h, seed):
         r.close()
         return f
     f = grad_check(init, h, seed, r.impl, r.model.order)
+    names = list(r.model.order)
     r.close()
+    if f is None and len(h) <= SINGLE_UPTO["thorough"]:
+        f = single_terminal_check(init, h, seed, names)
     return None if f is None else (len(h), ("backward",)) + f
 
 
